@@ -215,10 +215,13 @@ def envOfCfg (cfg : Cfg) : Env :=
       .tuple [.tuple [.str (ofString "Py_DEBUG")], ofCV cfg.pyDebug],
       .tuple [.tuple [.str (ofString "Py_GIL_DISABLED")], ofCV cfg.gilDisabled],
       .tuple [.tuple [.str (ofString "WITH_PYMALLOC")], ofCV cfg.withPymalloc],
-      .tuple [.tuple [.str (ofString "Py_UNICODE_SIZE")], ofCV cfg.unicodeSize]]),
+      .tuple [.tuple [.str (ofString "Py_UNICODE_SIZE")], ofCV cfg.unicodeSize],
+      .tuple [.tuple [.str (ofString "py_version_nodot")], ofCV cfg.pyVersionNodot],
+      .tuple [.tuple [.str (ofString "EXT_SUFFIX")], ofCV cfg.extSuffix]]),
    ("hasattr(sys,gettotalrefcount)", .bool cfg.hasRefcount),
    ("EXTENSION_SUFFIXES", .list (if cfg.hasDebugExt then [.str sDebugExt] else [])),
-   ("sys.maxunicode", .int (if cfg.maxUnicodeWide then 1114111 else 65535))]
+   ("sys.maxunicode", .int (if cfg.maxUnicodeWide then 1114111 else 65535)),
+   ("sys.implementation.name", .str cfg.implName)]
 
 def ofOptVersion : Option (List Nat) → PyVal
   | none => .none
@@ -342,15 +345,17 @@ theorem _get_config_var_translated : Gen.PySrc._get_config_var_supported = true 
 theorem _cpython_abis_translated : Gen.PySrc._cpython_abis_supported = true := rfl
 theorem cpython_tags_translated : Gen.PySrc.cpython_tags_supported = true := rfl
 
-/-- the four configuration variables `_cpython_abis` asks for -/
-inductive CfgVar | pyDebug | gilDisabled | withPymalloc | unicodeSize
+/-- the configuration variables the tag generators ask for -/
+inductive CfgVar | pyDebug | gilDisabled | withPymalloc | unicodeSize | pyVersionNodot | extSuffix
 
 def CfgVar.name : CfgVar → Str
   | .pyDebug => ofString "Py_DEBUG" | .gilDisabled => ofString "Py_GIL_DISABLED"
   | .withPymalloc => ofString "WITH_PYMALLOC" | .unicodeSize => ofString "Py_UNICODE_SIZE"
+  | .pyVersionNodot => ofString "py_version_nodot" | .extSuffix => ofString "EXT_SUFFIX"
 def CfgVar.get (cfg : Cfg) : CfgVar → CV
   | .pyDebug => cfg.pyDebug | .gilDisabled => cfg.gilDisabled
   | .withPymalloc => cfg.withPymalloc | .unicodeSize => cfg.unicodeSize
+  | .pyVersionNodot => cfg.pyVersionNodot | .extSuffix => cfg.extSuffix
 
 theorem _get_config_var_eq_model (cfg : Cfg) (x : CfgVar) (warn : PyVal) :
     Gen.PySrc._get_config_var (envOfCfg cfg) (.str x.name) warn = .ok (ofCV (x.get cfg)) := by
